@@ -56,6 +56,7 @@ const (
 	fxOther   = "i-other"
 	fxPrimary = 9 // id of the instance's primary interface
 	fxNever   = 1000
+	fxMaxEni  = 16 // Enis of the trace configuration (props/factory.py)
 )
 
 // ---------------------------------------------------------------------------------------------- naming
@@ -259,6 +260,9 @@ func (f *fxCloud) newEniID() int {
 	for k := 1; ; k++ {
 		if k == fxPrimary {
 			continue
+		}
+		if k > fxMaxEni { // machinery limit (the trace specification's Enis), never a verdict
+			panic("verif: the scenario used up the interface ids of the trace specification")
 		}
 		if _, ok := f.enis[k]; !ok && !f.usedEni[k] {
 			return k
